@@ -53,6 +53,13 @@ PRIM_FINGERPRINTS = {
     'thread_local_pop': 'f4ee5c4d91de75aa',
 }
 
+CONTEXT_FINGERPRINTS = {
+    'DynamicEvaluationContext.apply': '7fc307b818da97a9', 'DynamicEvaluationContext.collect': 'c062a088d906f829',
+    '_DynamicEvaluationStack.__init__': 'cd535830123445c5', '_DynamicEvaluationStack._local_stack': '5dde59cb5f464047',
+    '_DynamicEvaluationStack.ensure_thread_safety': '6c65e1912965907f', '_DynamicEvaluationStack.pop': '1e5a6d7668af10bf',
+    '_DynamicEvaluationStack.push': '906d90b7a3e51c0b',
+}
+
 HAND_WRITTEN_FINGERPRINTS = {'_detour_stack': 'b7f8c4a684be4e1f', 'current_mappings': '5e387196a2195dc3', 'enter_scope': '7500c5fc2dcf6b3d',
                              'leave_scope': 'c72ee86326603d9b', 'detour': '2ad472612f019603'}
 
@@ -1084,6 +1091,27 @@ def translate(repo=None):
     raise TranslationError('dynamic_evaluate uses thread-local keys %s' % sorted(set(dfn.used_keys)))
   info['notes'] = list(dfn.notes)
 
+  # ---- hyper/dynamic_evaluation.py: DynamicEvaluationContext.collect / apply = a mixing guard + dynamic_evaluate + a stack of contexts.
+  # Model/Scopes.v composes them from CDynGuard, CDynEval[Global] and CDynStackL/G; the source of the wrappers is pinned by fingerprint.
+  scls = [n for n in de.body if isinstance(n, ast.ClassDef) and n.name == '_DynamicEvaluationStack']
+  if len(scls) != 1:
+    raise TranslationError('_DynamicEvaluationStack not found')
+  sconst = _module_consts(ast.Module(body=scls[0].body, type_ignores=[]))
+  if '_TLS_KEY' not in sconst:
+    raise TranslationError('_DynamicEvaluationStack._TLS_KEY not found')
+  keys.add('tls', sconst['_TLS_KEY'], 'k_dynstack')
+  info['dynstack_key'] = sconst['_TLS_KEY']
+  cfp = {}
+  for m in ('ensure_thread_safety', '_local_stack', 'push', 'pop', '__init__'):
+    cfp['_DynamicEvaluationStack.' + m] = fingerprint(_find_fn(de, m, '_DynamicEvaluationStack'))
+  for m in ('collect', 'apply'):
+    cfp['DynamicEvaluationContext.' + m] = fingerprint(_find_fn(de, m, 'DynamicEvaluationContext'))
+  info['context_fingerprints'] = cfp
+  changed = sorted(k for k in cfp if CONTEXT_FINGERPRINTS.get(k) != cfp[k])
+  if changed:
+    raise TranslationError('dynamic_evaluation.%s changed (fingerprints %s): Model/Scopes.v composes collect/apply by hand'
+                           % ('/'.join(changed), {k: cfp[k] for k in changed}))
+
   # ---- utils/json_conversion.py: _TypeRegistry.load_types_for_deserialization (one process-wide stack) ---------------------
   jc = _parse(P('utils/json_conversion.py'))
   f = _find_fn(jc, 'load_types_for_deserialization', '_TypeRegistry')
@@ -1128,7 +1156,8 @@ def translate(repo=None):
   out.append('(* the process-wide store: hyper/base.py _global_dynamic_evaluate_fn, json_conversion.py _TypeRegistry._ondemand_registry_stack *)')
   out.append('Definition g_dynamic_evaluate : tlkey := 0.')
   out.append('Definition g_ondemand_types : tlkey := 1.')
-  out.append('Definition nglob : nat := 2.')
+  out.append('Definition g_dynstack : tlkey := 2.   (* dynamic_evaluation.py _DynamicEvaluationStack._global_stack *)')
+  out.append('Definition nglob : nat := 3.')
   out.append('Definition k_str_format : tlkey := %s.' % keys.ident('tls', fmt['str_format']))
   out.append('Definition k_repr_format : tlkey := %s.' % keys.ident('tls', fmt['repr_format']))
   for a in sorted(aliases):
